@@ -705,6 +705,12 @@ impl<'tcx> Dumper<'tcx> {
             ];
             if matches!(kind, DefKind::Fn | DefKind::AssocFn) {
                 v.push(("vis", self.vis(tcx.visibility(did))));
+                // effective visibility: can code outside the crate name (or dispatch to) this item?
+                let reach = match did.as_local() {
+                    Some(l) => tcx.effective_visibilities(()).is_reachable(l),
+                    None => false,
+                };
+                v.push(("reachable", Json::Bool(reach)));
                 if let Some(assoc) = tcx.opt_associated_item(did) {
                     if let Some(imp) = assoc.impl_container(tcx) {
                         v.push(("impl", self.impl_info(imp)));
